@@ -18,7 +18,7 @@ import (
 )
 
 // exprPositions are the expression positions of C01.
-var exprPositions = []string{"where", "project", "extend", "extend-unnamed", "summarize", "summarize-by", "sort", "take", "top-count", "top-by", "join", "let", "let-operand-minus", "let-alias-minus", "let-alias-eq", "let-beside-quoted-column"}
+var exprPositions = []string{"where", "project", "extend", "extend-unnamed", "summarize", "summarize-by", "sort", "take", "top-count", "top-by", "join", "let", "let-operand-minus", "let-operand-neg", "let-alias-minus", "let-alias-eq", "let-beside-quoted-column"}
 
 // letUse: the positions in which the expression is a let value that is used
 // (directly or through a second let that only renames it) as an operand.
@@ -26,6 +26,9 @@ func letUse(pos string, v gen.Expr) gen.Expr {
 	switch pos {
 	case "let-operand-minus", "let-alias-minus":
 		return &gen.Binary{Op: "-", X: &gen.Num{Text: "100"}, Y: v}
+	case "let-operand-neg":
+		// a sign directly before the name: the value may itself start with one
+		return &gen.Unary{Op: "-", X: v}
 	case "let-alias-eq":
 		return &gen.Binary{Op: "==", X: v, Y: &gen.Num{Text: "1"}}
 	case "let-beside-quoted-column":
@@ -82,7 +85,7 @@ func programFor(pos string, x gen.Expr) *gen.Program {
 		t.Ops = []gen.Op{&gen.Join{Right: &gen.Tabular{Table: gen.Ident{Name: "U"}}, Conds: []gen.Expr{x}}}
 	case "let":
 		return &gen.Program{Stmts: []gen.Stmt{&gen.Let{Name: gen.Ident{Name: "v"}, X: x}, &gen.Tabular{Table: gen.Ident{Name: "T"}, Ops: []gen.Op{&gen.Where{Pred: gen.ID("v")}}}}}
-	case "let-operand-minus", "let-beside-quoted-column":
+	case "let-operand-minus", "let-operand-neg", "let-beside-quoted-column":
 		t.Ops = []gen.Op{&gen.Project{Cols: []*gen.Col{{Name: name, X: letUse(pos, gen.ID("v"))}}}}
 		return &gen.Program{Stmts: []gen.Stmt{&gen.Let{Name: gen.Ident{Name: "v"}, X: x}, t}}
 	case "let-alias-minus", "let-alias-eq":
@@ -109,7 +112,7 @@ func extractSQLExpr(pos string, st *sqlx.Stmt) (sqlx.Expr, string) {
 	switch pos {
 	case "where", "let":
 		return s.Where, need(s.Where != nil, "WHERE clause")
-	case "project", "summarize", "let-operand-minus", "let-alias-minus", "let-alias-eq", "let-beside-quoted-column":
+	case "project", "summarize", "let-operand-minus", "let-operand-neg", "let-alias-minus", "let-alias-eq", "let-beside-quoted-column":
 		if len(s.Items) != 1 || s.Items[0].Star {
 			return nil, fmt.Sprintf("expected one select item, got %d", len(s.Items))
 		}
@@ -531,7 +534,7 @@ func TestC01Random(t *testing.T) {
 		switch pos {
 		case "join":
 			x = genJoinCond(g, min(depth, 3))
-		case "let", "let-operand-minus", "let-alias-minus", "let-alias-eq", "let-beside-quoted-column":
+		case "let", "let-operand-minus", "let-operand-neg", "let-alias-minus", "let-alias-eq", "let-beside-quoted-column":
 			x = g.Expr(min(depth, 4), gen.ECtx{Let: true})
 		case "summarize":
 			x = g.Expr(depth, gen.ECtx{Agg: true})
@@ -719,7 +722,7 @@ func TestC01Positions(t *testing.T) {
 	defer st.Flush()
 	maxNodes := 2
 	cs := exhaustiveCtors()
-	positions := []string{"project", "extend", "extend-unnamed", "summarize-by", "sort", "top-by", "where", "let", "let-operand-minus", "let-alias-minus", "let-alias-eq", "let-beside-quoted-column"}
+	positions := []string{"project", "extend", "extend-unnamed", "summarize-by", "sort", "top-by", "where", "let", "let-operand-minus", "let-operand-neg", "let-alias-minus", "let-alias-eq", "let-beside-quoted-column"}
 	st.SetExhaustive(fmt.Sprintf("all expression trees with <= %d operator nodes over %d constructors, leaves %q, in the positions %q (let: constant leaves only), with the parentheses the grammar needs and with every operand parenthesised", maxNodes, len(cs), leafModes, positions))
 	idx := 0
 	failed := false
